@@ -415,7 +415,8 @@ func (ru *running) fieldGridHTTP() {
 					continue // starts the DR state machine (C19)
 				}
 				cl := sp.tag + "=one-field:" + fv.desc
-				if !send(sp, "/config", map[string]interface{}{sp.sec + "." + sp.tag: j}, cl, fv.expect, false) {
+				// alternative spellings go through one route only (the section route where there is one)
+				if (fv.goVal != nil || sp.route == "") && !send(sp, "/config", map[string]interface{}{sp.sec + "." + sp.tag: j}, cl, fv.expect, false) {
 					return
 				}
 				if sp.route != "" && !send(sp, sp.route, nest(sp.tag, j), cl, fv.expect, false) {
